@@ -72,6 +72,13 @@ func (f *Formatter) formatAclDeclaration(decl *ast.AclDeclaration) *Declaration 
 	}
 }
 
+// Format the leading comments of a sortable property line.
+// The empty line before the first comment starts a new group of lines (followsEmptyLine),
+// the group prints it; the comment must not carry it along when the group is sorted.
+func (f *Formatter) propertyLeading(comments ast.Comments, level int) string {
+	return strings.TrimLeft(f.formatComment(comments, "\n", level), "\n")
+}
+
 // Format backend declaration
 func (f *Formatter) formatBackendDeclaration(decl *ast.BackendDeclaration) *Declaration {
 	buf := bufferPool.Get().(*bytes.Buffer) // nolint:errcheck
@@ -110,7 +117,7 @@ func (f *Formatter) formatBackendProperties(props []*ast.BackendProperty, nestLe
 		}
 
 		line := &DeclarationPropertyLine{
-			Leading:  f.formatComment(prop.Leading, "\n", nestLevel),
+			Leading:  f.propertyLeading(prop.Leading, nestLevel),
 			Trailing: f.trailing(prop.Trailing),
 			Key:      f.indent(nestLevel) + "." + prop.Key.String(),
 			Operator: " = ",
@@ -169,7 +176,7 @@ func (f *Formatter) formatDirectorDeclaration(decl *ast.DirectorDeclaration) *De
 			lines = DeclarationPropertyLines{}
 		}
 		line := &DeclarationPropertyLine{
-			Leading:  f.formatComment(prop.GetMeta().Leading, "\n", 1),
+			Leading:  f.propertyLeading(prop.GetMeta().Leading, 1),
 			Trailing: f.trailing(prop.GetMeta().Trailing),
 			Key:      f.indent(1),
 		}
@@ -286,7 +293,7 @@ func (f *Formatter) formatTableProperties(props []*ast.TableProperty) string {
 			lines = DeclarationPropertyLines{}
 		}
 		line := &DeclarationPropertyLine{
-			Leading:      f.formatComment(prop.Leading, "\n", 1),
+			Leading:      f.propertyLeading(prop.Leading, 1),
 			Trailing:     f.trailing(prop.Trailing),
 			Operator:     ": ",
 			Key:          f.indent(1) + f.formatPropertyValue(prop.Key),
